@@ -598,16 +598,20 @@ struct PipeWorld : World {
 			if (r >= 0) { R.frame_bytes.push_back(R.partial_sent ? (size_t) -1 : ws._wd._state.done - R.complete_bytes); R.completed.push_back(R.mi); ++R.mi; R.mpos = 0; R.complete_bytes = ws._wd._state.done; R.partial_sent = false; }
 			return r;
 		};
-		auto w_flush = [&](int fault, int64_t fa) -> int {
+		auto w_flush = [&](int fault, int64_t fa, bool bypoll = false) -> int {
 			simio::Fd *f = simio::get(wfd);
 			static const int map[] = {0, 0, simio::F_SHORT, simio::F_EAGAIN, simio::F_EINTR};
 			f->wfault = fault >= FL_SHORT && fault <= FL_EINTR ? map[fault] : 0; f->wfa = fa;
 			size_t done_before = ws._wd._state.done;
 			uint64_t wr_before = simio::chan(ch)->written;
 			int r;
-			{ Sut s; SUT_GUARD_ABORT(r = mpt_stream_flush(&ws)); }
+			// (the writer may also wait for room with an unlimited poll for output, which flushes what is finished as soon as the descriptor takes data)
+			size_t room = simio::chan(ch)->cap - std::min(simio::chan(ch)->cap, simio::chan(ch)->wire.size() + simio::chan(ch)->avail.size());
+			if (bypoll) { Sut s; SUT_GUARD_ABORT(r = mpt_stream_poll(&ws, POLLOUT, -1)); }
+			else { Sut s; SUT_GUARD_ABORT(r = mpt_stream_flush(&ws)); }
 			f->wfault = 0;
 			uint64_t wrote = simio::chan(ch)->written - wr_before;
+			if (bypoll) { st.hit("probe:flush_by_poll_for_output"); if (done_before && room && !wrote && !simio::chan(ch)->rclosed) fail("stall", "poll for output without time limit (%d) wrote nothing although %zu finished bytes wait and the descriptor has room for %zu", r, done_before, room); }
 			if (wrote > R.complete_bytes) { R.partial_sent = true; R.complete_bytes = 0; } else R.complete_bytes -= (size_t) wrote;
 			{ simio::Chan *c = simio::chan(ch); for (uint64_t i = 0; i < wrote && i < c->wire.size(); ++i) if (!c->wire[c->wire.size() - 1 - i]) ++delim_count; }
 			check_queue(ws._wd, "stream write");
@@ -702,7 +706,7 @@ struct PipeWorld : World {
 				if (R.crashed) break;
 				st.hit("op:W_FLUSH");
 				if (op.fault >= FL_SHORT) st.hit(std::string("fault:writev_") + FAULTS[op.fault]);
-				w_flush(op.fault, op.fa); break;
+				w_flush(op.fault, op.fa, op.fault < FL_SHORT && (op.a % 3) == 1); break;
 			case OP_NET: if (net(op.a)) st.hit("op:NET_DELIVER"); break;
 			case OP_RPOLL:
 				st.hit("op:R_POLL");
